@@ -53,8 +53,8 @@ func minimize(c *Case, key string, budget int) string {
 		if i := strings.IndexByte(m, '\n'); i >= 0 {
 			m = m[:i]
 		}
-		if i := strings.IndexByte(m, ':'); i >= 0 {
-			m = m[:i]
+		if len(m) > 70 {
+			m = m[:70]
 		}
 		return v.Key + "|" + m
 	}
@@ -68,7 +68,7 @@ func minimize(c *Case, key string, budget int) string {
 		cc.Source = s
 		v := runOracle(&cc)
 		// stay inside the domain: the reduced file must still build a descriptor / link like the original
-		return v.HarnessErr == "" && v.Key == key && sig(v) == sig(orig) && v.UnlinkedOK == orig.UnlinkedOK && v.Linked == orig.Linked
+		return v.HarnessErr == "" && v.Key == key && sig(v) == sig(orig) && v.UnlinkedOK == orig.UnlinkedOK
 	}
 	for round := 0; round < 6 && budget > 0; round++ {
 		before := len(cur)
